@@ -1,4 +1,5 @@
 import Cinco.Proofs.Cfg
+import Cinco.Config.ListOps
 import Cinco.Generated.Effects
 /-
   C06 — a rejected operation leaves the configuration exactly as it was.
@@ -139,5 +140,13 @@ theorem loads_order :
      | _, _, _ => false) = true ∧
     Generated.loadsProg.all (fun e => match e with | .unknown _ => false | _ => true) = true := by
   decide
+
+/-- **In-place operations on a list of configurations** (`append`, `insert`, index assignment with a map as the new item):
+    the item is built, loaded and validated before the list is touched, so a rejection — by the item schema, for a non-map
+    item, or for an index out of range — leaves the whole configuration as it was. -/
+theorem list_item_op_rejected_unchanged (W : World) (fuel : Nat) (s : Schema) (c : Cfg) (dotted : List Char) (mode : ListMode)
+    (item : Val) (n : Nat) (e : CErr) (h : (cfgListOp W fuel s c dotted mode item n).err = some e) :
+    (cfgListOp W fuel s c dotted mode item n).cfg = c :=
+  cfgListOp_rejected_unchanged W fuel s c dotted mode item n e h
 
 end Cinco.C06
